@@ -145,6 +145,7 @@ type reply struct {
 	result  any      // decoded response result
 	notifs  [][]byte // notification bodies written to stdout during the call
 	outErr  string
+	id      string // subprocess tier: id carried by the response
 }
 
 func (s *server) handle(req jsonrpc2.Request) (rep reply) {
